@@ -40,7 +40,7 @@ pub(crate) mod verif_kani_helper {
     pub fn recordless_storage() -> Storage<NullData> {
         Storage {
             data: NullData,
-            records: StorageRecords::new(),
+            records: StorageRecords::verif_empty(),
             transactions: 0,
             version: CURRENT_VERSION,
         }
